@@ -47,7 +47,7 @@ CHECKS = {
    "Every assignment of up to 3 (thorough 4) before-hooks and as many after-hooks with outcomes {Unhandled, Handled, Stop, Error, Mutate RBX, Register-from-inside, Redirect RIP} on `inc rcx`, a logging hook pair on `nop`, 5 programs (one ended by a top-level `ret` that has a hook pair of its own), 5 follow-up API calls; plus `syscall`, `int n`, `int1`, `int3` (instructions that work only when their mnemonic has hooks) x all 256 subsets of logging hooks on their four mnemonics; one instruction of each of the 65 supported mnemonics with a logging hook pair on every mnemonic (dispatch by name); the event log written by the instrumented native hooks is checked against an order-agnostic grammar (at most once, must-run, short-circuit, bracketing, foreign hooks, persistence, stop, error, registration whenever idle).",
    "Hook order is documented as undefined; after a Stop or a Handled in the other phase only 'at most once' is demanded of the other phase; a Stop ends its own phase.", "4/C12"),
  "C13": (ST, "explicit-state search (stateright BFS over the live Axecutor) against a heap model",
-   "Depth 9 (thorough 12) over guest brk(p) for p in {0, H, H+1, H+0x10, H+0x1000, H+0x1001, H+0x2400, H+0x3000, K, below the base} and guest byte stores/loads at {H, H+1, K-1, middle} in 4 layouts (incl. an area just above the heap), and the host mapping an area above the break once the heap exists, against an (H, K, bytes) model; invariant: the heap never overlaps another area.",
+   "Depth 9 (thorough 11) over guest brk(p) for p in {0, H, H+1, H+0x10, H+0x1000, H+0x1001, H+0x2400, H+0x3000, K, below the base} and guest byte stores/loads at {H, H+1, K-1, middle} in 4 layouts (incl. an area just above the heap), and the host mapping an area above the break once the heap exists, against an (H, K, bytes) model; invariant: the heap never overlaps another area.",
    "brk below the base and accesses at/above the break: crash-freedom only; bytes released by a shrink are forgotten by the model.", "4/C13"),
  "C14": (ST, "explicit-state search (stateright BFS over the live Axecutor) against FIFO models",
    "Depth 8 (thorough 10) over guest pipe()/write/read with <= 2 pipes, both ends of both pipes 4 non-pipe descriptors and 2 descriptors that equal a pipe end only in their low 32 bits, reads and writes on pipe ends with an unmapped buffer (the queue must survive a failing call), sizes {0,1,2,3,5} / {0,1,2,4,8}, descriptor numbers decided by the harness through the seam (distinct and forced-colliding), a user hook registered after the built-in handler; against a VecDeque per pipe: returned count, exact bytes in buf[..k], rest of the buffer untouched, independence of pipes, non-pipe descriptors reach the user hook.",
